@@ -175,7 +175,7 @@ func dynamicBlocksKnown(body *hclsyntax.Body, root *schema.BodySchema) (known ma
 
 func (p c19) RunUnit(idx int, tier string, seed int64, focus map[string]string, rep *runner.Reporter) {
 	gseed := seed*100000 + int64(idx)
-	opt := []string{"simple", "simple,refs", "simple,deps"}[idx%3]
+	opt := []string{"simple", "simple,refs", "simple,deps", "simple,refs,unicode"}[idx%4]
 	nat := gen.Build(gseed, opt)
 	js, ok := gen.BuildJSON(gseed, opt)
 	if !ok {
